@@ -264,6 +264,11 @@ def client_items(tier):
               b"01/15/2024  12:30 PM             1,024 "):
         cases.append({"op": "list", "raw": "LIST", "listing": L(good1 + b"\r\n" + m + b"\r\n" + good2 + b"\r\n"),
                       "mutated": "nameless-line", "expect_lines": 3})
+    # lines that look like the `total <blocks>` header of `ls -l` - alone, and with a whole entry behind them
+    for m in (b"total 8", b"total 0", b"total 8 -rw-r--r-- 1 ftp ftp 3 Jan  1 00:00 lost.txt", b"total 12 junk",
+              b"total 3x", b"Total 8", b"total"):
+        cases.append({"op": "list", "raw": "LIST", "listing": L(good1 + b"\r\n" + m + b"\r\n" + good2 + b"\r\n"),
+                      "mutated": "total-line", "expect_lines": 3})
     # over-long lines (beyond the 64 KiB stream limit) in listings and in replies
     for n in (65530, 65536, 65537, 70000, 140000):
         big = b"Type=file;Size=1; " + b"n" * n
